@@ -819,6 +819,83 @@ impl World {
         }
     }
 
+    /// initialize_reward(_v2) for the next free index; returns the instruction and (mint, vault).
+    pub fn init_reward_ix(&mut self, p: usize, index: u8, mint: Pubkey) -> (Ix, Pubkey) {
+        let pool = self.pools[p].clone();
+        let vault = self.new_key();
+        let program = self.bank.get(&mint).map(|a| a.owner).unwrap_or(TOKEN);
+        let ix = if program == TOKEN && self.r.gen() {
+            b::InitializeReward {
+                reward_authority: pool.reward_authority,
+                funder: ADMIN,
+                whirlpool: pool.key,
+                reward_mint: mint,
+                reward_vault: vault,
+                token_program: TOKEN,
+                system_program: system_program::ID,
+                rent: RENT_ID,
+            }
+            .ix(index)
+        } else {
+            b::InitializeRewardV2 {
+                reward_authority: pool.reward_authority,
+                funder: ADMIN,
+                whirlpool: pool.key,
+                reward_mint: mint,
+                reward_token_badge: b::pda_token_badge(self.configs[pool.config].key, mint).0,
+                reward_vault: vault,
+                reward_token_program: program,
+                system_program: system_program::ID,
+                rent: RENT_ID,
+            }
+            .ix(index)
+        };
+        (ix, vault)
+    }
+    pub fn set_emissions_ix(&mut self, p: usize, index: u8, e: u128) -> Ix {
+        let pool = self.pools[p].clone();
+        let st = self.pool_state(p);
+        let vault = st.reward_infos.get(index as usize).map(|r| r.vault).unwrap_or_default();
+        if self.r.gen() {
+            b::SetRewardEmissions { whirlpool: pool.key, reward_authority: pool.reward_authority, reward_vault: vault }.ix(index, e)
+        } else {
+            b::SetRewardEmissionsV2 { whirlpool: pool.key, reward_authority: pool.reward_authority, reward_vault: vault }.ix(index, e)
+        }
+    }
+    pub fn collect_reward_ix(&mut self, i: usize, index: u8) -> Ix {
+        let pi = self.positions[i].clone();
+        let pool = self.pools[pi.pool].clone();
+        let st = self.pool_state(pi.pool);
+        let ri = st.reward_infos.get(index as usize).cloned().unwrap_or_default();
+        let program = self.bank.get(&ri.mint).map(|a| a.owner).unwrap_or(TOKEN);
+        let dest = if ri.initialized() { self.user_token(pi.owner, ri.mint) } else { self.users[pi.owner].key };
+        if program == TOKEN && self.r.gen() {
+            b::CollectReward {
+                whirlpool: pool.key,
+                position_authority: self.users[pi.owner].key,
+                position: pi.position,
+                position_token_account: pi.token_account,
+                reward_owner_account: dest,
+                reward_vault: ri.vault,
+                token_program: TOKEN,
+            }
+            .ix(index)
+        } else {
+            b::CollectRewardV2 {
+                whirlpool: pool.key,
+                position_authority: self.users[pi.owner].key,
+                position: pi.position,
+                position_token_account: pi.token_account,
+                reward_owner_account: dest,
+                reward_mint: ri.mint,
+                reward_vault: ri.vault,
+                reward_token_program: program,
+                memo_program: MEMO,
+            }
+            .ix(index, None)
+        }
+    }
+
     pub fn update_fees_ix(&self, i: usize) -> Ix {
         let pi = &self.positions[i];
         let (tl, tu) = self.pos_arrays(pi);
